@@ -35,6 +35,12 @@ def schnorr_verify_bytes(pub, msg, sig):
     return pub.verify_schnorr(msg, SchnorrSignature.parse(sig))
 
 
+def schnorr_verify_xonly(pk32, msg, sig):
+    """verification under a key RECEIVED as 32 bytes (as tapscript OP_CHECKSIG and taproot key-path spending receive it):
+    the bytes are lifted by S256Point.parse_xonly, then verify_schnorr; any exception counts as 'invalid'"""
+    return S256Point.parse_xonly(pk32).verify_schnorr(msg, SchnorrSignature.parse(sig))
+
+
 def schnorr_sign_then_verify(d, msg, aux):
     pk = PrivateKey(d)
     sig = pk.sign_schnorr(msg, aux)
